@@ -208,7 +208,26 @@ func runC12(r *Run) {
 			expiryPath = pathOf(fl)
 			return expiryPath == issuePath
 		}
-		_, hit := reach(entryOf(f), isReturn, cut, isExpire)
+		// the expiry written by a helper of the package on each of its paths (`r.expireFlashCookie()`)
+		isExpireOrHelper := func(in ssa.Instruction) bool {
+			if isExpire(in) {
+				return true
+			}
+			ci, ok := in.(ssa.CallInstruction)
+			if !ok {
+				return false
+			}
+			g := ci.Common().StaticCallee()
+			if g == nil || g.Pkg != f.Pkg || len(g.Blocks) == 0 || g.Object() == nil || g.Object().Exported() {
+				return false
+			}
+			var miss ssa.Instruction
+			withoutHelpers(func() {
+				_, miss = reach(entryOf(g), func(x ssa.Instruction) bool { return isReturn(x) && x.Parent() == g }, nil, isExpire)
+			})
+			return miss == nil
+		}
+		_, hit := reach(entryOf(f), isReturn, cut, isExpireOrHelper)
 		r.check(len(cut) > 0 && hit == nil, "parseAndClearFlashMessages:expires-cookie", r.fpos(f), "with the error edges removed every path to return writes an expired fiber_flash cookie with the path it was issued for ("+issuePath+")",
 			"after the flash messages were decoded the fiber_flash cookie is not expired on the path it was issued for (issued with path "+issuePath+", expiry path "+expiryPath+"): a conforming client that requested a URL below a directory files the expiry under that directory and keeps the cookie — or, without any expiry, presents it on every later request — so the messages are delivered again and again")
 	})
@@ -267,6 +286,25 @@ func runC12(r *Run) {
 					loops = append(loops, loopInfo{g, br.If.Block(), edge{br.If.Block(), br.slotWhenRel(false)}})
 				case br.Info.Op == token.GEQ && stripValue(br.Info.Other) == size, br.Info.Op == token.LEQ && stripValue(br.Info.Root) == size:
 					loops = append(loops, loopInfo{g, br.If.Block(), edge{br.If.Block(), br.slotWhenRel(true)}})
+				}
+			}
+			// the same loop counting down: `for remaining := size; remaining > 0; remaining--`
+			for _, br := range branchesInOne(g) {
+				ph, ok := stripValue(br.Info.Root).(*ssa.Phi)
+				if !ok || br.Info.Const == nil || !isConstInt(br.Info.Const, 0) || (br.Info.Op != token.GTR && br.Info.Op != token.NEQ) {
+					continue
+				}
+				fromSize, stepsDown := false, false
+				for _, e := range ph.Edges {
+					if stripValue(e) == size {
+						fromSize = true
+					}
+					if bo, ok := e.(*ssa.BinOp); ok && bo.Op == token.SUB && bo.X == ssa.Value(ph) && isConstInt(bo.Y, 1) {
+						stepsDown = true
+					}
+				}
+				if fromSize && stepsDown && len(ph.Edges) == 2 {
+					loops = append(loops, loopInfo{g, br.If.Block(), edge{br.If.Block(), br.slotWhenRel(false)}})
 				}
 			}
 		}
